@@ -78,7 +78,20 @@ let rep_of = function "always" -> Always | "last" -> Last | "never" -> Never | s
 let cfg_of mn mx rp first limit =
   { c_min = z_of mn; c_max = z_of mx; c_repeat = rep_of rp; c_first = (first = "T"); c_limit = zopt_of limit }
 
+let load_of atom = match String.split_on_char ':' atom with
+  | ["line"] -> load_line
+  | ["char"] -> load_char
+  | ["symbol"] -> load_symbol dEFAULT_CUT_BEFORE dEFAULT_CUT_AFTER
+  | ["symbol"; b; a] -> load_symbol (bytes_of_hex b) (bytes_of_hex a)
+  | _ -> failwith ("atom " ^ atom)
+
 let handle toks = match toks with
+  | ["load"; atom; d] -> res str_of_tc ((load_of atom) (bytes_of_hex d))
+  | ["splitlines"; d] -> "ok " ^ str_of_parts (splitlines (bytes_of_hex d))
+  | ["markers"; d] -> (match find_markers (bytes_of_hex d) with
+      | NoMarkers w -> "none " ^ hex_of_bytes w
+      | Marked (b, r, a) -> Printf.sprintf "marked %s %s %s" (hex_of_bytes b) (hex_of_bytes r) (hex_of_bytes a)
+      | MarkerError -> "err LithiumError")
   | ["run"; "minimize"; mn; mx; rp; first; limit; clk; b; p; r; a; file0; verdicts; fuel] ->
       let strat = minimize (cfg_of mn mx rp first limit) (clock_of clk) no_post in
       str_of_result (run strat (verdict_of verdicts) (nat_of_int (int_of_string fuel)) (tc_of b p r a) (bytes_of_hex file0))
